@@ -1,5 +1,7 @@
 import ColaVerif.Lemmas.InvWell
 import ColaVerif.Lemmas.InvNodes
+import ColaVerif.Lemmas.InvOptions
+import ColaVerif.Lemmas.InvInstances
 import ColaVerif.Basic.GRat
 import ColaVerif.Basic.GInt
 
@@ -27,9 +29,16 @@ rules that fire):
 
 **What the contracts assume (read this before quoting a theorem of this file).**  Every contract is
 an EXACT statement: exact factorisation, exact solve, exact reciprocal.  Nothing here is about
-rounding, about "backward stable" or about "the requested tolerance": those parts of the property
-are carried by the correspondence harness only (tolerances of the exact stream on n ≤ 8, the
-residual claim with a derived bound of the float-side stream on n ≤ 200, props/c06_float.py).
+rounding or "backward stable".  About "the requested tolerance" the model says this much (round 3):
+the algorithm objects carry their options (`Alg.cg o`, `Alg.gmres o`, `Alg.auto d`), and
+`C06_solver_options` / `C06_auto_forwards_options` prove that every solver object `inv` builds holds
+exactly the caller's `tol` / `max_iters` (`C06_cg_runs_with_options`, `C06_gmres_runs_with_options`
+in the sub-files: the C12 / C13 solver models are then RUN with them).  That a run with tolerance
+`tol` ends with a residual of that size is C12's / C13's stopping theorem and, on the real code, the
+residual claim of the float-side stream (props/c06_float.py; n ≤ 200) and the exact stream (n ≤ 8).
+Each contract has an instance on a concrete non-diagonal input over ℚ[i] (`C06_lu_instance`: exact LU
+with a row swap; `C06_chol_instance`: exact Cholesky of a complex Hermitian matrix;
+`C06_solve_contract_instance`: exact solver), through which the main theorems are applied.
 For the two iterative solvers the exact-solve contract `SolveContract E alg A` is what the sibling
 families prove for the solver MODELS when the iteration is run to the grade of the right-hand side:
 * GMRES: `C13_exact_at_grade_input` / `C13_exact_at_grade_injective` / `C13_exact_at_dim`
@@ -184,23 +193,26 @@ theorem C06_transpose (E : Ext R) (alg : Alg) (A : Op R) (h : InvHyp E alg A) (B
 
 /-- **the Auto decision table** (docstring of `inv(A, Auto)`): PSD & small → Cholesky, PSD & large →
 CG, not PSD & small → LU, not PSD & large → GMRES; "small" = at most 10⁶ entries. -/
-theorem C06_auto (isPSD : Bool) (entries : Nat) :
-    autoChoice isPSD entries =
-      (if isPSD then (if entries ≤ 1000000 then Alg.chol else Alg.cg)
-       else (if entries ≤ 1000000 then Alg.lu else Alg.gmres)) := by
+theorem C06_auto (d : Opts) (isPSD : Bool) (entries : Nat) :
+    autoChoice d isPSD entries =
+      (if isPSD then (if entries ≤ 1000000 then Alg.chol else Alg.cg (.ofDict d))
+       else (if entries ≤ 1000000 then Alg.lu else Alg.gmres (.ofDict d))) := by
   unfold autoChoice
   by_cases h : entries ≤ 1000000 <;> cases isPSD <;> simp [h]
 
 /-- both sides of the switch: 1000 × 1000 is small, 1001 × 1001 is large. -/
-theorem C06_auto_switch :
-    autoChoice true (1000 * 1000) = .chol ∧ autoChoice true (1001 * 1001) = .cg ∧
-      autoChoice false (1000 * 1000) = .lu ∧ autoChoice false (1001 * 1001) = .gmres := by
+theorem C06_auto_switch (d : Opts) :
+    autoChoice d true (1000 * 1000) = .chol ∧ autoChoice d true (1001 * 1001) = .cg (.ofDict d) ∧
+      autoChoice d false (1000 * 1000) = .lu ∧
+      autoChoice d false (1001 * 1001) = .gmres (.ofDict d) := by
   simp [autoChoice]
 
-/-- an explicit algorithm is used as given; `Auto` (and the omitted argument) resolves through
-the table. -/
+/-- an explicit algorithm object is used as given (with its options); `Auto(**d)` (and the omitted
+argument, `d = {}`) resolves through the table. -/
 theorem C06_effAlg (alg : Alg) (isPSD : Bool) (entries : Nat) :
-    effAlg alg isPSD entries = (if alg = .auto then autoChoice isPSD entries else alg) := rfl
+    (∀ d, alg = .auto d → effAlg alg isPSD entries = autoChoice d isPSD entries) ∧
+      (alg.isAuto = false → effAlg alg isPSD entries = alg) := by
+  cases alg <;> simp [effAlg, Alg.isAuto]
 
 /-- the conditional Unitary rule is dead for every algorithm that has a rule of its own: with
 `Auto`, `LU`, `Cholesky`, `CG`, `GMRES` the algorithm rule never returns `Unitary(A.H)` (an `op`
@@ -210,16 +222,15 @@ theorem C06_unitary_rule_dead (E : Ext R) (alg : Alg) (A : Op R) (halg : alg ≠
   unfold algRule
   have hne : effAlg alg (A.isa .psd) (A.rows * A.cols) ≠ .other := by
     unfold effAlg autoChoice
-    split
-    · split <;> simp
-    · exact halg
+    cases alg <;> simp at halg ⊢
+    split <;> simp
   generalize effAlg alg (A.isa .psd) (A.rows * A.cols) = ea at hne
   cases ea with
   | other => exact absurd rfl hne
-  | auto => simp
-  | gmres => simp
+  | auto d => simp
+  | gmres o => simp
   | lu => simp
-  | cg => simp only; split <;> simp
+  | cg o => simp only; split <;> simp
   | chol => simp only; split <;> simp
 
 /-! ## the hypotheses are needed / satisfiable -/
@@ -258,7 +269,7 @@ multiplies by the full matrix, while `TriangularInv` reads the lower triangle on
 operator is the identity, not the inverse. -/
 theorem C06_triangular_payload_needed :
     let A : Op Int := .tri .f64 2 2 true (fun i j => if i = 1 ∧ j = 0 then 0 else 1)
-    ∃ B, invRule unitExt .auto A = .ok B ∧
+    ∃ B, invRule unitExt (.auto {}) A = .ok B ∧
       mmul 2 A.den.f (B.den unitExt).f 0 1 ≠ (eyeM : MatF Int) 0 1 := by
   intro A
   refine ⟨.triInv .f64 2 true (fun i j => if i = 1 ∧ j = 0 then 0 else 1), by simp [A, invRule, invAux], ?_⟩
@@ -266,9 +277,9 @@ theorem C06_triangular_payload_needed :
 
 /-- the solver contract is needed: with a solver that does not solve (cola's GMRES returns NaN for a
 zero right-hand-side column), `solve` does not satisfy `A x = b`. -/
-theorem C06_solver_contract_needed :
+theorem C06_solver_contract_needed (o : KOpts) :
     let A : Op Int := .dense .f64 1 1 (fun _ _ => 1)
-    ∃ Y, solveRule unitExt .gmres A 1 (fun _ _ => 1) = .ok Y ∧ mmul 1 A.den.f Y.f 0 0 ≠ 1 := by
+    ∃ Y, solveRule unitExt (.gmres o) A 1 (fun _ _ => 1) = .ok Y ∧ mmul 1 A.den.f Y.f 0 0 ≠ 1 := by
   intro A
   refine ⟨MatV.of zeroM, by simp [A, solveRule, invRule, invAux, algRule, effAlg, Except.map, InvOp.mm, unitExt], ?_⟩
   simp [mmul, sumTo, zeroM]
@@ -295,19 +306,19 @@ the Kronecker node reports SelfAdjoint, and its default left product takes the c
 shortcut: `x @ inv(A)` is `+i·x` instead of `−i·x` (the inverse itself and `inv(A) @ x` are right). -/
 theorem C06_scalar_times_annotated_clause_needed :
     let A : Op GInt := .kron [.prod [.eye .c128 1, .scalar .c128 GInt.I 1]]
-    ∃ B, invRule gintExt .auto A = .ok B ∧ InvHyp gintExt .auto A ∧ B.scalarTimesAnn = true ∧
+    ∃ B, invRule gintExt (.auto {}) A = .ok B ∧ InvHyp gintExt (.auto {}) A ∧ B.scalarTimesAnn = true ∧
       (B.rmm gintExt 1 (fun _ _ => 1)).f 0 0 ≠ mmul 1 (fun _ _ => 1) (B.den gintExt).f 0 0 := by
   intro A
-  have hB : invRule gintExt .auto A
+  have hB : invRule gintExt (.auto {}) A
       = .ok (.kron [.prod [.op (.scalar .c128 (star GInt.I) 1), .op (.eye .c128 1)]]) := by
     simp [A, invRule, invAux, allSquare, Op.rows, Op.cols, Inv.sequence, Except.map, gintExt]
-  have hH : InvHyp gintExt .auto A := by
+  have hH : InvHyp gintExt (.auto {}) A := by
     simp [A, InvHyp, HypAux, allSquare, Op.rows, Op.cols, Op.chainOk, gintExt]
     decide
   refine ⟨_, hB, hH, ?_, ?_⟩
   · simp [InvOp.scalarTimesAnn, InvOp.isScalarMul, Op.isScalarMul, Op.core, InvOp.anns, Op.anns,
       Op.scalarTimesAnn]
-  · have s := invRule_sound gintExt .auto A hH _ hB
+  · have s := invRule_sound gintExt (.auto {}) A hH _ hB
     have hm := s.mm 1 (conjM (transposeM fun _ _ => (1 : GInt))) 0 0
       (by simp [InvOp.rows, Op.rows]) (by omega)
     have hd : (InvOp.den gintExt (InvOp.kron [InvOp.prod
@@ -329,9 +340,9 @@ example :
     let T : Op Int := .tri .f64 2 2 true (fun i j => if i = j then 1 else if i = 1 ∧ j = 0 then 3 else 0)
     let A : Op Int := .prod [.kron [T, .scalar .f64 (-1) 1], .bdiag [.eye .f64 1] [2],
       .annot .unitary (.perm .f64 [1, 0]), .diag .f64 2 (fun _ => -1)]
-    InvHyp unitExt .auto A := by
+    InvHyp unitExt (.auto {}) A := by
   intro T A
-  simp [A, T, InvHyp, HypAux, allSquare, Op.rows, Op.cols, Op.chainOk, Op.dotSum, LowerTri, DiagUnit,
+  simp [A, T, InvHyp, HypAux, allSquare, Op.rows, Op.cols, Op.chainOk, Op.dotSum, Inv.LowerTri, DiagUnit,
     unitExt]
   intro i j _ _ hij
   rw [if_neg (by omega), if_neg (by omega)]
@@ -390,11 +401,12 @@ any tree: the table selects Cholesky / CG only for a declared-PSD operator, LU /
 nothing.  (An exception of the real call on these paths can only come from inside a kernel —
 e.g. a singular matrix — i.e. from a violated contract / invertibility hypothesis.) -/
 theorem C06_succeeds_auto_lu_gmres (E : Ext R) (alg : Alg)
-    (halg : alg = .auto ∨ alg = .lu ∨ alg = .gmres) (A : Op R) : ∃ B, invRule E alg A = .ok B := by
+    (halg : alg.isAuto = true ∨ alg = .lu ∨ alg.isGMRES = true) (A : Op R) :
+    ∃ B, invRule E alg A = .ok B := by
   rw [C06_succeeds]
   apply atRules_of_forall (fun X => ?_) (fun _ => trivial)
-  rcases halg with rfl | rfl | rfl
-  · exact algDeclared_auto X
+  cases alg <;> simp [Alg.isAuto, Alg.isGMRES] at halg
+  · exact algDeclared_auto _ X
   · simp [AlgDeclared, effAlg]
   · simp [AlgDeclared, effAlg]
 
@@ -468,12 +480,14 @@ theorem C06_solve_iter_call (E : Ext R) (alg alg' : Alg) (A : Op R)
 
 /-- … and such operators exist on every iterative path: a Dense operator with GMRES, a
 PSD-declared Dense operator with CG (explicitly or — above 10⁶ entries — through `Auto`). -/
-theorem C06_iter_paths (E : Ext R) (a : MatF R) :
-    invRule E .gmres (.dense .f64 3 3 a) = .ok (.iterInv (.dense .f64 3 3 a) .gmres) ∧
-    invRule E .cg (.annot .psd (.dense .f64 3 3 a)) = .ok (.iterInv (.annot .psd (.dense .f64 3 3 a)) .cg) ∧
-    invRule E .auto (.annot .psd (.dense .f64 1001 1001 a))
-      = .ok (.iterInv (.annot .psd (.dense .f64 1001 1001 a)) .cg) ∧
-    invRule E .auto (.dense .f64 1001 1001 a) = .ok (.iterInv (.dense .f64 1001 1001 a) .gmres) := by
+theorem C06_iter_paths (E : Ext R) (a : MatF R) (o : KOpts) (d : Opts) :
+    invRule E (.gmres o) (.dense .f64 3 3 a) = .ok (.iterInv (.dense .f64 3 3 a) (.gmres o)) ∧
+    invRule E (.cg o) (.annot .psd (.dense .f64 3 3 a))
+      = .ok (.iterInv (.annot .psd (.dense .f64 3 3 a)) (.cg o)) ∧
+    invRule E (.auto d) (.annot .psd (.dense .f64 1001 1001 a))
+      = .ok (.iterInv (.annot .psd (.dense .f64 1001 1001 a)) (.cg (.ofDict d))) ∧
+    invRule E (.auto d) (.dense .f64 1001 1001 a)
+      = .ok (.iterInv (.dense .f64 1001 1001 a) (.gmres (.ofDict d))) := by
   refine ⟨?_, ?_, ?_, ?_⟩ <;>
     simp [invRule, invAux, algRule, effAlg, autoChoice, Op.isa, Op.anns, AnnSet.isa, AnnSet.union,
       Ann.sub, Op.rows, Op.cols]
@@ -493,7 +507,7 @@ hypothesis excludes the recorded defect.  (On that input the Product node of the
 reports PSD falsely — the same C05 defect — so `Op.Good` fails as well; `ScalarsOK` is a
 sufficient condition that does not mention the result.) -/
 theorem C06_scalarsOK_needed :
-    ¬ ScalarsOK .auto (.kron [.prod [.eye .c128 1, .scalar .c128 GInt.I 1]] : Op GInt) := by
+    ¬ ScalarsOK (.auto {}) (.kron [.prod [.eye .c128 1, .scalar .c128 GInt.I 1]] : Op GInt) := by
   intro h
   simp only [ScalarsOK] at h
   rw [AtRules] at h
@@ -512,14 +526,15 @@ theorem C06_input_hypotheses_witness :
     let T : Op Int := .tri .f64 2 2 true (fun i j => if i = j then 1 else if i = 1 ∧ j = 0 then 3 else 0)
     let A : Op Int := .prod [.kron [T, .scalar .f64 (-1) 1],
       .annot .unitary (.perm .f64 [1, 0]), .prod [.scalar .f64 (-1) 2, .diag .f64 2 (fun _ => -1)]]
-    InvHyp unitExt .auto A ∧ Declared .auto A ∧ Op.Good A ∧ A.RealTyped ∧ ScalarsOK .auto A ∧
+    InvHyp unitExt (.auto {}) A ∧ Declared (.auto {}) A ∧ Op.Good A ∧ A.RealTyped ∧
+      ScalarsOK (.auto {}) A ∧
       RecipStar unitExt := by
   intro T A
   refine ⟨?_, ?_, ⟨?_, ?_, ?_⟩, ?_, ?_, ?_⟩
-  · simp [A, T, InvHyp, HypAux, allSquare, Op.rows, Op.cols, Op.chainOk, LowerTri, DiagUnit, unitExt]
+  · simp [A, T, InvHyp, HypAux, allSquare, Op.rows, Op.cols, Op.chainOk, Inv.LowerTri, DiagUnit, unitExt]
     intro i j _ _ hij
     rw [if_neg (by omega), if_neg (by omega)]
-  · exact atRules_of_forall (fun X => algDeclared_auto X) (fun _ => trivial) _ _
+  · exact atRules_of_forall (fun X => algDeclared_auto _ X) (fun _ => trivial) _ _
   · simp [A, T, Op.wf, Op.rows, Op.cols, Op.chainOk]
   · simp [A, T, Op.dupSlice]
   · simp [A, T, Op.HermOK, Op.HermNode, Op.isa, Op.anns, AnnSet.isa, AnnSet.union, AnnSet.inter,
@@ -529,6 +544,139 @@ theorem C06_input_hypotheses_witness :
     rw [AtRules]
     simp [allSquare, Op.rows, Op.cols, AtRules, ProdScalarsReal, Op.isScalarMul, Op.core]
   · intro x; rfl
+
+/-! ## round 3: the options of the algorithm object; instances of the contracts -/
+
+/-- **the solver objects `inv` builds carry exactly the caller's options**: every
+`IterativeOperatorWInfo` node inside `inv(A, alg)` — at any depth below Product / Kronecker /
+BlockDiag — holds a CG or GMRES object whose `tol` / `max_iters` are `alg.requested`: the fields of
+the caller's `CG(…)` / `GMRES(…)` object (which is then the very object, `a = alg`), resp. for
+`Auto(**d)` what `CG(**d)` / `GMRES(**d)` make of `d`. -/
+theorem C06_solver_options (E : Ext R) (alg : Alg) (A : Op R) (B : InvOp R)
+    (hB : invRule E alg A = .ok B) :
+    ∀ a ∈ B.solvers, (a.isCG = true ∨ a.isGMRES = true) ∧ a.kopts = alg.requested ∧
+      (alg.isAuto = false → a = alg) := invRule_solvers E alg A B hB
+
+/-- **`Auto` forwards its options** (what seeded change c06_m2 breaks): with `Auto(tol = t)` every
+solver inside the result runs with `tol = t`, with `Auto(max_iters = m)` with `max_iters = m`; an
+absent key leaves the class default (`1e-6`, `1000`). -/
+theorem C06_auto_forwards_options (E : Ext R) (d : Opts) (A : Op R) (B : InvOp R)
+    (hB : invRule E (.auto d) A = .ok B) :
+    ∀ a ∈ B.solvers, ∃ o, a.kopts = some o ∧
+      (∀ t, d.tol = some t → o.tol = t) ∧ (∀ m, d.maxIters = some m → o.maxIters = m) ∧
+      (d.tol = none → o.tol = mkRat 1 1000000) ∧ (d.maxIters = none → o.maxIters = 1000) := by
+  intro a ha
+  obtain ⟨_, h, _⟩ := invRule_solvers E (.auto d) A B hB a ha
+  refine ⟨.ofDict d, h, ?_, ?_, ?_, ?_⟩
+  · intro t ht; simp [KOpts.ofDict, ht]
+  · intro m hm; simp [KOpts.ofDict, hm]
+  · intro ht; simp [KOpts.ofDict, ht, KOpts.default]
+  · intro hm; simp [KOpts.ofDict, hm, KOpts.default]
+
+/-- witness (nested): `inv(Kronecker(Dense 2×2, Dense 2×2), GMRES(tol = 1/10¹⁰, max_iters = 40))`
+holds two solver objects, both with the caller's options; and `inv(PSD(Dense 1001×1001),
+Auto(tol = 1/10¹⁰))` holds `CG(tol = 1/10¹⁰, max_iters = 1000)`. -/
+theorem C06_options_witness (E : Ext R) (a : MatF R) :
+    (∃ B, invRule E (.gmres ⟨mkRat 1 10000000000, 40⟩)
+        (.kron [.dense .f64 2 2 a, .dense .f64 2 2 a]) = .ok B ∧
+      B.solvers = [.gmres ⟨mkRat 1 10000000000, 40⟩, .gmres ⟨mkRat 1 10000000000, 40⟩]) ∧
+    (∃ B, invRule E (.auto { tol := some (mkRat 1 10000000000) })
+        (.annot .psd (.dense .f64 1001 1001 a)) = .ok B ∧
+      B.solvers = [.cg ⟨mkRat 1 10000000000, 1000⟩]) := by
+  refine ⟨⟨_, by simp [invRule, invAux, algRule, effAlg, Inv.sequence, Except.map]; rfl, ?_⟩, ?_⟩
+  · simp [InvOp.solvers]
+  · refine ⟨_, (C06_iter_paths E a default _).2.2.1, ?_⟩
+    simp [InvOp.solvers, KOpts.ofDict, KOpts.default]
+
+open ExactFactor in
+/-- **`LUContract` instantiated, main theorem applied through it**: for
+`A = Dense([[0,1,1],[2,1,0],[2,2,3]])` and the exact parameter set `gExt` (partially pivoted LU over
+ℚ[i], evaluated: `p = [1,0,2]`, a row swap) the hypothesis bundle `InvHyp` holds for `LU()` and for
+`Auto()`, `inv(A, LU())` returns, and `C06_inv_total` / `C06_solve_total` give the two-sided
+inverse and `A · solve(A, X) = X` for every right-hand side. -/
+theorem C06_lu_instance :
+    LUContract gExt 3 luA3 ∧ InvHyp gExt .lu luOp ∧ InvHyp gExt (.auto {}) luOp ∧ luOp.rows = 3 ∧
+    (∃ B, invRule gExt .lu luOp = .ok B ∧
+      EqOn luOp.rows luOp.rows (mmul luOp.rows (B.den gExt).f luOp.den.f) eyeM ∧
+      EqOn luOp.rows luOp.rows (mmul luOp.rows luOp.den.f (B.den gExt).f) eyeM) ∧
+    ∀ (b : Nat) (X : MatF GRat), ∃ Y, solveRule gExt .lu luOp b X = .ok Y ∧
+      EqOn luOp.rows b (mmul luOp.rows luOp.den.f Y.f) X := by
+  have hH : InvHyp gExt .lu luOp := by
+    simp only [luOp, InvHyp, HypAux, AlgHyp, effAlg, Op.rows, Op.cols, Op.td, MatV.of_f]
+    exact ⟨trivial, good_luOp, luContract_luA3⟩
+  have hHa : InvHyp gExt (.auto {}) luOp := by
+    simp only [luOp, InvHyp, HypAux, AlgHyp, Op.rows, Op.cols, Op.td, MatV.of_f]
+    refine ⟨trivial, good_luOp, ?_⟩
+    have : effAlg (.auto {}) (Op.isa (.dense .f64 3 3 luA3 : Op GRat) .psd) (3 * 3) = .lu := by
+      simp [effAlg, autoChoice, Op.isa, Op.anns, AnnSet.isa]
+    rw [this]
+    exact luContract_luA3
+  have hD : Declared .lu luOp := (C06_succeeds gExt .lu luOp).mp
+    (C06_succeeds_auto_lu_gmres gExt .lu (Or.inr (Or.inl rfl)) luOp)
+  obtain ⟨B, hB, _, _, _, h1, h2, _⟩ := C06_inv_total gExt .lu luOp hH hD
+  refine ⟨luContract_luA3, hH, hHa, by simp [luOp, Op.rows], ⟨B, hB, h1, h2⟩, fun b X => ?_⟩
+  obtain ⟨Y, hY, hs, _⟩ := C06_solve_total gExt .lu luOp hH hD b X
+  exact ⟨Y, hY, hs⟩
+
+open ExactFactor in
+/-- **`CholContract` instantiated, main theorem applied through it**: for
+`A = PSD(Dense([[4, 2i], [-2i, 5]]))` (complex128) and `gExt` (exact Cholesky, evaluated:
+`L = [[2, 0], [-i, 2]]`) `InvHyp` and `Declared` hold for `Cholesky()`, and `inv` / `solve` are the
+inverse / the solution. -/
+theorem C06_chol_instance :
+    CholContract gExt 2 cholA2c ∧ InvHyp gExt .chol hpdOp ∧ Declared .chol hpdOp ∧ hpdOp.rows = 2 ∧
+    (∃ B, invRule gExt .chol hpdOp = .ok B ∧
+      EqOn hpdOp.rows hpdOp.rows (mmul hpdOp.rows (B.den gExt).f hpdOp.den.f) eyeM ∧
+      EqOn hpdOp.rows hpdOp.rows (mmul hpdOp.rows hpdOp.den.f (B.den gExt).f) eyeM) ∧
+    ∀ (b : Nat) (X : MatF GRat), ∃ Y, solveRule gExt .chol hpdOp b X = .ok Y ∧
+      EqOn hpdOp.rows b (mmul hpdOp.rows hpdOp.den.f Y.f) X := by
+  have hpsd : hpdOp.isa .psd = true := by
+    simp [hpdOp, Op.isa, Op.anns, AnnSet.isa, AnnSet.union, Ann.sub]
+  have hH : InvHyp gExt .chol hpdOp := by
+    simp only [InvHyp, hpdOp, HypAux]
+    refine ⟨by simp [Op.rows, Op.cols], good_hpdOp, ?_⟩
+    simp only [effAlg, Op.rows, Op.td]
+    exact cholContract_cholA2c
+  have hD : Declared .chol hpdOp := by
+    simp only [Declared, hpdOp, AtRules, AlgDeclared, effAlg]
+    exact hpsd
+  obtain ⟨B, hB, _, _, _, h1, h2, _⟩ := C06_inv_total gExt .chol hpdOp hH hD
+  refine ⟨cholContract_cholA2c, hH, hD, by simp [hpdOp, Op.rows], ⟨B, hB, h1, h2⟩, fun b X => ?_⟩
+  obtain ⟨Y, hY, hs, _⟩ := C06_solve_total gExt .chol hpdOp hH hD b X
+  exact ⟨Y, hY, hs⟩
+
+/-- **`SolveContract` (the `∀ b X` form) instantiated, main theorem applied through it**: with the
+exact solver of `gExt`, for a `GMRES` object with ANY options on the non-symmetric `luOp` and a `CG`
+object with any options on the Hermitian positive definite `hpdOp`, `InvHyp` holds and
+`solve(A, X, alg)` satisfies `A · Y = X` for every block `X` (any number of columns, zero columns
+included — unlike cola's GMRES: `C06_solver_contract_needed`). -/
+theorem C06_solve_contract_instance (o : KOpts) :
+    (SolveContract gExt (.gmres o) luOp ∧ InvHyp gExt (.gmres o) luOp ∧
+      ∀ (b : Nat) (X : MatF GRat), ∃ Y, solveRule gExt (.gmres o) luOp b X = .ok Y ∧
+        EqOn luOp.rows b (mmul luOp.rows luOp.den.f Y.f) X) ∧
+    (SolveContract gExt (.cg o) hpdOp ∧ InvHyp gExt (.cg o) hpdOp ∧
+      ∀ (b : Nat) (X : MatF GRat), ∃ Y, solveRule gExt (.cg o) hpdOp b X = .ok Y ∧
+        EqOn hpdOp.rows b (mmul hpdOp.rows hpdOp.den.f Y.f) X) := by
+  have hH1 : InvHyp gExt (.gmres o) luOp := by
+    simp only [luOp, InvHyp, HypAux, AlgHyp, effAlg, Op.rows, Op.cols]
+    exact ⟨trivial, good_luOp, solveContract_gmres o⟩
+  have hD1 : Declared (.gmres o) luOp := (C06_succeeds gExt (.gmres o) luOp).mp
+    (C06_succeeds_auto_lu_gmres gExt (.gmres o) (Or.inr (Or.inr rfl)) luOp)
+  have hpsd : hpdOp.isa .psd = true := by
+    simp [hpdOp, Op.isa, Op.anns, AnnSet.isa, AnnSet.union, Ann.sub]
+  have hH2 : InvHyp gExt (.cg o) hpdOp := by
+    simp only [InvHyp, hpdOp, HypAux]
+    refine ⟨by simp [Op.rows, Op.cols], good_hpdOp, ?_⟩
+    simp only [effAlg]
+    exact solveContract_cg o
+  have hD2 : Declared (.cg o) hpdOp := by
+    simp only [Declared, hpdOp, AtRules, AlgDeclared, effAlg]
+    exact hpsd
+  refine ⟨⟨solveContract_gmres o, hH1, fun b X => ?_⟩, ⟨solveContract_cg o, hH2, fun b X => ?_⟩⟩
+  · obtain ⟨Y, hY, hs, _⟩ := C06_solve_total gExt (.gmres o) luOp hH1 hD1 b X
+    exact ⟨Y, hY, hs⟩
+  · obtain ⟨Y, hY, hs, _⟩ := C06_solve_total gExt (.cg o) hpdOp hH2 hD2 b X
+    exact ⟨Y, hY, hs⟩
 
 end C06
 
@@ -563,3 +711,9 @@ end C06
 #print axioms C06.C06_declared_needed
 #print axioms C06.C06_scalarsOK_needed
 #print axioms C06.C06_input_hypotheses_witness
+#print axioms C06.C06_solver_options
+#print axioms C06.C06_auto_forwards_options
+#print axioms C06.C06_options_witness
+#print axioms C06.C06_lu_instance
+#print axioms C06.C06_chol_instance
+#print axioms C06.C06_solve_contract_instance
